@@ -202,6 +202,33 @@ def _bg_sample(size):
     return body
 
 
+def _bg_sample_half_infinite(side):
+    def body(c):
+        mu, sd = c.real("mu"), c.real("sd", pos=True)
+        b = c.real("bound")
+        size = c.choice("size", [None, 2])
+        if side == "lower":
+            c.requires(b <= mu)
+            lo, hi = b, INF
+        else:
+            c.requires(b >= mu)
+            lo, hi = -INF, b
+        if not c.symbolic:
+            np.random.seed(c.int("seed", 0, 10 ** 6))
+        g = c.call(BoundedGaussian, mu, sd, lo, hi)
+        s = c.call(g.sample, size)
+        vals = [s if c.symbolic else float(s)] if size is None else list(s)
+        c.ensures("in-support", c.and_(*[(v >= b) if side == "lower" else (v <= b) for v in vals]))
+    body.__doc__ = "BoundedGaussian with only a %s bound: samples respect that bound" % side
+    return body
+
+
+for _side in ("lower", "upper"):
+    contract("C14", "bounded_gaussian_sample_%s_only" % _side, [P + "BoundedGaussian.sample"],
+             bounded="rejection loop unrolled up to 2 redraws; sizes None and 2", rng_calls=3,
+             max_paths=600)(_bg_sample_half_infinite(_side))
+
+
 for _sz in (None, 1, 2):
     contract("C14", "bounded_gaussian_sample_%s" % ("none" if _sz is None else _sz),
              [P + "BoundedGaussian.sample", P + "Gaussian.sample"],
